@@ -356,7 +356,7 @@ Section WithHash.
                   end
                 | None => Err
                 end
-              else Ok ([], [], true) in
+              else Ok ([], [], false) in
             match tracked with
             | Err => Err
             | Ok (mc, kids, cm) =>
